@@ -52,7 +52,8 @@ func vfsTarget() string { return "T" }
 
 func vfsRemoveTarget() { vfs = nil }
 
-// vfsAdd puts an entry (relative to the target) into the pre-state.
+// vfsAdd puts an entry (relative to the target) into the pre-state. Kinds: 1 directory, 2 regular file, 4 a dangling
+// symbolic link (it points to a path outside the target at which nothing exists).
 func vfsAdd(rel []string, kind int) {
 	vfs = append(vfs, vEntry{elems: append([]string{"T"}, rel...), kind: kind})
 }
@@ -111,9 +112,17 @@ func vfsTooLong(e []string) bool {
 // vfsTargetAsFile turns the target into a regular file (pre-state).
 func vfsTargetAsFile() { vfs = []vEntry{{elems: []string{"T"}, kind: 2}} }
 
+// vfsTargetAsDangling turns the target into a symbolic link that points to nothing (pre-state).
+func vfsTargetAsDangling() { vfs = []vEntry{{elems: []string{"T"}, kind: 4}} }
+
 func vfsInside(e []string) bool {
 	if len(e) == 0 || e[0] != "T" {
 		return false
+	}
+	for _, l := range vfsLinks {
+		if len(e) > len(l) && hasPrefixElems(e, l) {
+			return false // below a symbolic link: wherever the link points, it is not under the target
+		}
 	}
 	for _, x := range e {
 		if x == ".." {
@@ -134,23 +143,38 @@ func vfsStat(p string) int {
 	for n := 1; n < len(e); n++ {
 		if i := vfsFind(e[:n]); i >= 0 && vfs[i].kind == 2 {
 			return 3 // a path component is a file: ENOTDIR
+		} else if i >= 0 && vfs[i].kind == 4 {
+			return 0 // a path component is a dangling link: ENOENT
 		}
 	}
 	i := vfsFind(e)
-	if i < 0 {
-		return 0
+	if i < 0 || vfs[i].kind == 4 {
+		return 0 // (Stat follows a dangling link to nothing)
 	}
 	return vfs[i].kind
 }
 
-func vfsMkdirAll(p string) bool {
+// vfsLstat: as vfsStat, but the last element is not followed: a dangling link exists (as something that is no directory)
+func vfsLstat(p string) int {
+	e := verifPathElems(p)
+	if i := vfsFind(e); i >= 0 && vfs[i].kind == 4 && !vfsTooLong(e) {
+		return 2
+	}
+	return vfsStat(p)
+}
+
+func vfsMkdirAll(p string) bool { return vfsMkdirAllK(p) == 0 }
+
+// vfsMkdirAllK: os.MkdirAll. 0 done, 1 refused, 2 refused with "file exists" (a path element is a dangling link: Stat
+// does not see it, Mkdir meets it)
+func vfsMkdirAllK(p string) int {
 	e := verifPathElems(p)
 	if !vfsInside(e) {
 		vfsOutside++
 		vfsMut++
 	}
 	if vfsTooLong(e) {
-		return false
+		return 1
 	}
 	for n := 1; n <= len(e); n++ {
 		i := vfsFind(e[:n])
@@ -158,11 +182,13 @@ func vfsMkdirAll(p string) bool {
 			// only a directory that is actually made changes the file system (MkdirAll of an existing one does not)
 			vfsMut++
 			vfs = append(vfs, vEntry{elems: append([]string{}, e[:n]...), kind: 1})
+		} else if vfs[i].kind == 4 {
+			return 2
 		} else if vfs[i].kind != 1 {
-			return false
+			return 1
 		}
 	}
-	return true
+	return 0
 }
 
 // vfsCreateExcl: O_CREATE|O_EXCL. 0 created, 1 the path exists already (whatever it is), 2 refused (no parent, ...)
@@ -254,6 +280,11 @@ func vfsCreate(p string) bool {
 		return false
 	}
 	i := vfsFind(e)
+	if i >= 0 && vfs[i].kind == 4 {
+		// O_CREATE follows a dangling link: the file appears where the link points, which is not under the target
+		vfsOutside++
+		return true
+	}
 	if i >= 0 {
 		return vfs[i].kind == 2 // truncation of an existing file (counted as a mutation above)
 	}
@@ -277,7 +308,7 @@ func joinElems(e []string) string {
 func vfsList(dir string) []string {
 	d := verifPathElems(dir)
 	i := vfsFind(d)
-	if i < 0 {
+	if i < 0 || vfs[i].kind == 4 {
 		return nil
 	}
 	if vfs[i].kind == 2 {
@@ -330,7 +361,7 @@ func vfsReadDirKinds(dir string) []int {
 func vfsListKinds(dir string) []int {
 	d := verifPathElems(dir)
 	i := vfsFind(d)
-	if i < 0 || vfs[i].kind == 2 {
+	if i < 0 || vfs[i].kind == 2 || vfs[i].kind == 4 {
 		return nil
 	}
 	out := []int{1}
